@@ -128,10 +128,16 @@ GEN_OUT = os.path.join(core.LEAN, "PyribsGen", "RngSites.lean")
 
 def translate(ctx):
     t_start = time.time()
+    # mutation runs (VERIF_NO_TRANSLATE=1) test many source trees at once: they classify the sites of their tree but
+    # leave the shared generated Lean file alone
+    out = GEN_OUT if os.environ.get("VERIF_NO_TRANSLATE") != "1" else f"{GEN_OUT}.scratch{os.getpid()}"
     try:
-        sites, spawns, changed = rng_sites.translate(core.REPO, GEN_OUT)
+        sites, spawns, changed = rng_sites.translate(core.REPO, out)
     except (SyntaxError, FileNotFoundError, OSError) as e:
         raise core.Infra(f"translator could not read {core.REPO}/ribs: {e}") from e
+    finally:
+        if out != GEN_OUT and os.path.exists(out):
+            os.remove(out)
     bad = [s for s in sites if not rng_sites.seeded(s)]
     badsp = [sp for sp in spawns if not rng_sites.spawn_separated(sp)]
     by_prov, by_kind = {}, {}
